@@ -856,6 +856,83 @@ func c08AsyncCancel(w *core.WorkerCtx) {
 	}
 }
 
+// c08DropUnderReaders: gossip keeps bringing overdrawing tips and children of them (the child's arrival makes the node
+// validate the tip and drop it, a write to the graph) while four clients keep reading balances and histories, each
+// read a walk over the whole graph. Every call must return.
+func c08DropUnderReaders(w *core.WorkerCtx) {
+	rng := core.Rand(w.Seed, "C08d", w.Batch)
+	desc := fmt.Sprintf("c08 invalid tips dropped by gossiped children while clients read seed=%d batch=%d", w.Seed, w.Batch)
+	w.Mark("%s", desc)
+	world := ledger.NewWorld(rng, w.R, []string{"C08"}, 0, desc)
+	_, err := ledger.Setup(world, ledger.Profile{Nodes: 1, Users: 4, SupplyClass: 0, Delivery: "lockstep"})
+	if err != nil {
+		w.R.Inconc("setup failed: " + err.Error())
+		return
+	}
+	e := &c08env{w: w, world: world, n: world.Nodes[0]}
+	world.Quiet = true
+	for i := 0; i < 400; i++ {
+		t := world.NewTrx(world.Users[0], world.Users[1+i%3].Addr, spice.Melange{SupplementaryCurrency: uint64(1 + i%7)}, nil)
+		world.Propose(e.n, &t, "grow")
+	}
+	book := e.n.Book
+	var stop atomic.Bool
+	var reads atomic.Int64
+	var wg sync.WaitGroup
+	for g := 0; g < 4; g++ {
+		wg.Add(1)
+		go func(g int) {
+			defer wg.Done()
+			for i := 0; !stop.Load(); i++ {
+				if (i+g)%2 == 0 {
+					book.CalculateBalance(context.Background(), world.Users[1+i%3].Addr)
+				} else {
+					book.ReadDAGTransactionsByAddress(context.Background(), world.Users[1+i%3].Addr)
+				}
+				reads.Add(1)
+			}
+		}(g)
+	}
+	rounds := w.Pick(40, 200)
+	dropped := 0
+	for i := 0; i < rounds && !e.dead; i++ {
+		tip, _ := e.tipAndAncestors()
+		s, _ := ledger.TakeSnap(book)
+		l, ok := s.Live[tip]
+		if !ok {
+			break
+		}
+		over := world.NewTrx(world.Users[1+i%3], world.Users[0].Addr, spice.Melange{Currency: 1 << 40}, nil)
+		ov := ledger.ForgeVertex(world.Sealers[i%2], over, tip, tip, l.V.Weight+1, world.Now())
+		ct := world.NewTrx(world.Users[0], world.Users[1+i%3].Addr, spice.Melange{SupplementaryCurrency: 2}, nil)
+		cv := ledger.ForgeVertex(world.Sealers[(i+1)%2], ct, ov.Hash, ov.Hash, l.V.Weight+2, world.Now())
+		w.Mark("drop under readers round %d", i)
+		var e1, e2 error
+		e.watch("AddLeaf of an overdrawing tip while clients read", func() { e1 = book.AddLeaf(context.Background(), ledger.CloneVertex(&ov)) })
+		if e.dead {
+			break
+		}
+		e.watch("AddLeaf of a child of an overdrawing tip while clients read", func() { e2 = book.AddLeaf(context.Background(), ledger.CloneVertex(&cv)) })
+		if e1 == nil && e2 != nil {
+			dropped++
+		}
+		if !e.dead && i%5 == 4 {
+			e.grow(false)
+		}
+	}
+	stop.Store(true)
+	if !e.dead {
+		e.watch("readers finishing", func() { wg.Wait() })
+	}
+	w.R.Eval(rounds)
+	w.R.Count("c08_tips_dropped_under_readers", dropped)
+	w.R.Count("c08_reads_during_tip_drops", int(reads.Load()))
+	w.R.Nontriv(fmt.Sprintf("drop-under-readers/dropped=%v/wedged=%v", dropped > 0, e.dead))
+	if !e.dead {
+		world.Close()
+	}
+}
+
 func c08Worker(w *core.WorkerCtx) {
 	maxN := w.Pick(7, 40)
 	switch w.Batch % 4 {
@@ -870,6 +947,7 @@ func c08Worker(w *core.WorkerCtx) {
 		c08HeavyVertex(w)
 		c08RetryExhaustion(w)
 		c08TruncateUnderLoad(w)
+		c08DropUnderReaders(w)
 		c08AsyncCancel(w)
 	}
 }
